@@ -1,0 +1,78 @@
+//go:build verif
+
+package keeper
+
+// Contracts for the deductive checker in /verif (comment-only; compiled only with -tags verif).
+
+/*@
+alias LvParams github.com/haqq-network/haqq/x/liquidvesting/types.Params
+alias LvDenom github.com/haqq-network/haqq/x/liquidvesting/types.Denom
+alias LvDenomList []github.com/haqq-network/haqq/x/liquidvesting/types.Denom
+sort LvHas = (Array Str Bool)
+sort LvVal = (Array Str LvDenom)
+
+// abstract view of the liquidvesting state: params subspace, counter (key 0x02), denoms (0x01 | baseDenom -> Denom)
+world lv_params LvParams
+world lv_counter uint64
+world lv_has LvHas
+world lv_val LvVal
+
+specfunc lv_none() LvHas = smt "((as const (Array Str Bool)) false)"
+specfunc lv_put_has(h LvHas, k string) LvHas = smt "(store h k true)"
+specfunc lv_put_val(m LvVal, k string, e LvDenom) LvVal = smt "(store m k e)"
+// two denom-store views answer every GetDenom / GetAllDenoms query identically
+specfunc lv_same(h1 LvHas, v1 LvVal, h2 LvHas, v2 LvVal) bool = forall id string :: h1[id] == h2[id] && (h1[id] ==> v1[id] == v2[id])
+// store invariant: every denom is stored under its own BaseDenom (CreateDenom and SetDenom are the only writers)
+specfunc lv_inv(h LvHas, v LvVal) bool = forall id string :: h[id] ==> v[id].BaseDenom == id
+
+// the store obtained from (h, m) by SetDenom(l[0]), ..., SetDenom(l[n-1])   ("fromList")
+ghost func lv_ins_has(h LvHas, l LvDenomList, n int) LvHas
+    def ite(n <= 0, h, lv_put_has(lv_ins_has(h, l, n-1), l[n-1].BaseDenom))
+ghost func lv_ins_val(m LvVal, l LvDenomList, n int) LvVal
+    def ite(n <= 0, m, lv_put_val(lv_ins_val(m, l, n-1), l[n-1].BaseDenom, l[n-1]))
+
+// the key-ordered enumeration of a store view ("listOf")
+uf lv_list(h LvHas, m LvVal) LvDenomList
+specfunc lv_canon(l LvDenomList) bool = forall i int, j int :: 0 <= i && i < j && j < len(l) ==> str_lt(l[i].BaseDenom, l[j].BaseDenom)
+
+// ---- trusted axioms about the enumeration
+// A-lv-members: the enumeration lists stored values, in strictly ascending key order
+axiom lv_list: forall h LvHas, m LvVal :: lv_inv(h, m) ==> lv_canon(lv_list(h, m)) && len(lv_list(h, m)) >= 0
+        && (forall i int :: 0 <= i && i < len(lv_list(h, m)) ==> h[lv_list(h, m)[i].BaseDenom] && m[lv_list(h, m)[i].BaseDenom] == lv_list(h, m)[i])
+// A-lv-fromList-listOf
+axiom lv_list: forall h LvHas, m LvVal, m0 LvVal :: lv_inv(h, m) ==>
+        lv_same(lv_ins_has(lv_none(), lv_list(h, m), len(lv_list(h, m))), lv_ins_val(m0, lv_list(h, m), len(lv_list(h, m))), h, m)
+// A-lv-listOf-fromList
+axiom lv_list: forall l LvDenomList, m0 LvVal :: lv_canon(l) ==>
+        seqeq(lv_list(lv_ins_has(lv_none(), l, len(l)), lv_ins_val(m0, l, len(l))), l)
+
+// ---- leaf store accessors: assumed contracts over the abstract store view
+func (Keeper).GetParams
+    trusted
+    ensures result == lv_params
+// SetParams validates, then writes the subspace
+func (Keeper).SetParams
+    trusted
+    modifies lv_params
+    ensures ok: result == nil ==> lv_params == params && params.MinimumLiquidationAmount > 0
+    ensures err: result != nil ==> lv_params == old(lv_params) && !(params.MinimumLiquidationAmount > 0)
+func (Keeper).GetDenomCounter
+    trusted
+    ensures result == lv_counter
+func (Keeper).SetDenomCounter
+    trusted
+    modifies lv_counter
+    ensures lv_counter == counter
+func (Keeper).SetDenom
+    trusted
+    modifies lv_has, lv_val
+    ensures lv_has == lv_put_has(old(lv_has), denom.BaseDenom) && lv_val == lv_put_val(old(lv_val), denom.BaseDenom, denom)
+func (Keeper).GetDenom
+    trusted
+    ensures result.1 == lv_has[baseDenom]
+    ensures result.1 ==> result.0 == lv_val[baseDenom]
+// iteration helper (prefix iterator + codec): the key-ordered enumeration of the denom store
+func (Keeper).GetAllDenoms
+    trusted
+    ensures result == lv_list(lv_has, lv_val)
+@*/
